@@ -163,7 +163,11 @@ fn search(args: &HiArgs, mode: SearchMode) -> anyhow::Result<bool> {
 /// Requesting a sorted output from ripgrep (such as with `--sort path`) will
 /// automatically disable parallelism and hence sorting is not handled here.
 fn search_parallel(args: &HiArgs, mode: SearchMode) -> anyhow::Result<bool> {
-    use std::sync::atomic::{AtomicBool, Ordering};
+    #[cfg(ripgrep_verif)]
+    use ignore::verif::sync::AtomicBool;
+    #[cfg(not(ripgrep_verif))]
+    use std::sync::atomic::AtomicBool;
+    use std::sync::atomic::Ordering;
 
     let started_at = std::time::Instant::now();
     let haystack_builder = args.haystack_builder();
@@ -288,11 +292,12 @@ fn files(args: &HiArgs) -> anyhow::Result<bool> {
 /// Requesting a sorted output from ripgrep (such as with `--sort path`) will
 /// automatically disable parallelism and hence sorting is not handled here.
 fn files_parallel(args: &HiArgs) -> anyhow::Result<bool> {
+    #[cfg(ripgrep_verif)]
+    use ignore::verif::sync::AtomicBool;
+    #[cfg(not(ripgrep_verif))]
+    use std::sync::atomic::AtomicBool;
     use std::{
-        sync::{
-            atomic::{AtomicBool, Ordering},
-            mpsc,
-        },
+        sync::{atomic::Ordering, mpsc},
         thread,
     };
 
